@@ -153,6 +153,21 @@ CLAIMED.update({
         technique='symbolic execution of rustc MIR with z3 on fabricated VM states (symbolic-length digit strings), native replay', design='4/C16'),
 })
 
+CLAIMED.update({
+    'C06': dict(
+        text='Panic-freedom as a step lemma per entry point: each of the 128 global procedures written in Rust that the engine can execute (14 are excluded with a reason in '
+             'the evidence: eval, apply, call/cc, I/O, random, clock, symbolic allocation sizes) is called from MIR on a fabricated VM at every arity 0..3 (thorough 0..4) with '
+             'each argument drawn from 19 value kinds whose payloads are solver variables or boundary palettes (any i64, any double incl. NaN / infinities, bignums, rationals at the '
+             'i32 limits, any ASCII char and non-ASCII representatives, strings / vectors / lists of length 0..2, improper lists, symbols, booleans, nil, void, procedures, '
+             'continuations). Claim: the call returns Ok or Err without panic (overflow, index, unwrap, slice), a returned Err renders through the real `impl Display for Error`, and '
+             'no path exceeds the step budget (a path that does is re-run natively with a time limit: non-termination is a violation). parse_text (hence lex::scan, parse) on every '
+             'text of up to 3 (thorough 4) symbolic chars incl. non-ASCII representatives is covered the same way.',
+        note='Outside: time bounds beyond the step budget, allocation failure, native stack exhaustion (C19), circular structures, containers longer than 2, the excluded procedures, '
+             'the sliced evaluator and VM reuse after errors (C13, C07), the highlighter (its panics are reported by C20). With two or more arguments, later numeric arguments come '
+             'from boundary palettes (symbolic x symbolic products and float/int conversion circuits are not decided in time); expt/pow at arity 2 are excluded (C08 covers the arithmetic).',
+        technique='symbolic execution of rustc MIR with z3 on fabricated VM states (one harness per procedure and arity), native replay incl. time-limited hang confirmation', design='4/C06'),
+})
+
 NOT_APPLICABLE = {
     'C01': 'whole-pipeline property over arbitrary programs (reader -> syntax-rules prelude -> compiler -> VM): no engine here can push a symbolic program through it; enumerating program shapes would be testing, not solver work (DESIGN.md section 5)',
     'C02': 'scoping is a relation between compile-time environment maps and run-time environment chains across nested activations of whole programs; the only solver-sized kernel restates the code (DESIGN.md section 5)',
